@@ -74,11 +74,11 @@ PROPS["C08"] = dict(
     level_note="Trusted: Coq kernel+VM, rs2v printer, Rust/Script.v action classification, mutual exclusion "
                "of Mutex, Condvar wakes every waiter on notify_all and has no lost wake-ups, FIFO of "
                "crossbeam channels; callers hold no AssetReadGuard (documented precondition of hot_reload).",
-    gen=["HotReloading", "Deps", "Private"],
+    gen=["HotReloading", "Deps", "Private", "Entry"],
     model_files=["Rust/Ast.v", "Rust/Syntax.v", "Rust/Script.v", "Ref/Answers.v"],
     model_targets=["Ref/Answers.vo", "Rust/Script.vo"],
     proof_files=["Proofs/AnsInv.v", "Proofs/AnsR.v", "Proofs/AnsC.v", "Proofs/AnsWork.v", "Proofs/AnsBridge.v", "Proofs/Dfs.v", "Witness/OldD1.v",
-                 "Tie/Answers.v", "Tie/Graph.v", "Tie/Erasure.v", "Props/C08.v"],
+                 "Tie/Answers.v", "Tie/Graph.v", "Tie/Erasure.v", "Tie/Entry.v", "Props/C08.v"],
     proof_targets=["Props/C08.vo", "Witness/OldD1.vo"],
     props_module="Props.C08",
     theorems=["C08_code_has_the_protocol_shapes", "C08_code_senders_never_block", "C08_no_deadlock", "C08_every_step_decreases_the_measure",
@@ -87,8 +87,8 @@ PROPS["C08"] = dict(
               "C08_code_marks_before_recursing", "C08_code_reloader_thread_has_the_default_stack",
               "C08_code_a_panicking_reload_is_survived", "C08_old_visit_diverges",
               "C08_executable_model_never_deadlocks", "C08_executable_model_bounded_work",
-              "C08_executable_model_rests_only_when_all_returned"],
-    engines=[("answers", ["--parts", "shapes,panic,flood,conc,gone,deep,static"])],
+              "C08_executable_model_rests_only_when_all_returned", "C08_code_write_drops_nothing_under_the_lock"],
+    engines=[("answers", ["--parts", "shapes,panic,flood,conc,gone,deep,static,dropread"])],
     thorough_features=[["parking_lot"]],
     disagreement_is_violation=True,
     rule="answers: (B) every digraph of get_cached look-ups on <=2 (quick) / <=3 (thorough) TNode assets "
@@ -523,7 +523,7 @@ sys_prop(
     "exactly-once ledger over whole histories (incl. reloads, races are C01) is checked on the implementation.  "
     "Partial: swap_any's byte swap and Box::from_raw casts are memory-level and not modelled.",
     ["Proofs/SysGrows.v", "Proofs/SysStatic.v", "Proofs/SysMap.v", "Proofs/SysReload.v", "Tie/Erasure.v",
-     "Tie/Entry.v", "Tie/Maps.v", "Tie/Records.v", "Proofs/SysLedger.v", "Props/C13.v"],
+     "Tie/Entry.v", "Tie/Maps.v", "Tie/Records.v", "Tie/Cell.v", "Proofs/SysLedger.v", "Props/C13.v"],
     ["Props/C13.vo"],
     ["C13_casts_are_guarded_by_the_type_id", "C13_insertion_loser_dropped_at_once", "C13_code_insert_keeps_the_first",
      "C13_remove_drops_exactly_the_removed", "C13_take_hands_over_then_the_caller_drops",
@@ -531,8 +531,8 @@ sys_prop(
      "C13_old_value_is_replaced_under_the_write_lock", "C13_lookup_is_by_type",
      "C13_code_reload_swaps_whole_same_typed_values", "C13_ledger_of_every_history", "C13_no_double_drop",
      "C13_everything_dropped_once_when_empty", "C13_every_operation_balances",
-     "C13_code_add_asset_loads_then_inserts"],
-    ["Entry", "CacheMap", "LocalMap", "Private", "Anycache", "Records"],
+     "C13_code_add_asset_loads_then_inserts", "C13_code_cell_drops_the_arm_it_holds"],
+    ["Entry", "CacheMap", "LocalMap", "Private", "Anycache", "Records", "Cell"],
     ["value-not-dropped-exactly-once", "handle-changed", "torn-read", "guard-not-pinned", "loser-not-dropped",
      "racers-disagree", "presence-flipped", "handle-moved"], mode="all",
     extra_engines=[("rwdiff", []), ("racediff", [])])
@@ -552,13 +552,14 @@ sys_prop(
     "level nothing stays recorded; registering an asset gives it exactly the recorded entries as dependencies "
     "(older edges dropped, nobody else's moved) and in every reachable state the two directions of the graph "
     "agree.  `an edit reloads exactly the assets whose own load touched the entry, "
-    "plus dependents` is the correspondence of visited sets.  Not covered: two caches used from one load.",
-    ["Proofs/SysRecs.v", "Proofs/SysGraph.v", "Tie/Records.v", "Tie/Dirs.v", "Props/C14.v"], ["Props/C14.vo"],
+    "plus dependents` is the correspondence of visited sets.  `no_record` called on another cache (one without a reloader) from inside a load is exercised by every other `norec` line of the scripts.",
+    ["Proofs/SysRecs.v", "Proofs/SysGraph.v", "Tie/Records.v", "Tie/Dirs.v", "Tie/Maps.v", "Props/C14.v"], ["Props/C14.vo"],
     ["C14_code_records_as_modelled", "C14_nested_reloadable_load_records_only_the_asset",
      "C14_no_record_records_nothing", "C14_helper_thread_records_nothing",
      "C14_top_level_load_leaves_no_record", "C14_insertion_attributes_exactly_the_recorded_entries",
-     "C14_graph_directions_agree_in_every_history", "C14_code_directory_assets_record_what_they_load"],
-    ["Records", "Anycache", "Asset", "Dirs"], [], mode="hot")
+     "C14_graph_directions_agree_in_every_history", "C14_code_directory_assets_record_what_they_load",
+     "C14_code_no_record_is_unconditional"],
+    ["Records", "Anycache", "Asset", "Dirs", "CacheMap", "LocalMap", "Private"], [], mode="hot")
 
 PROPS["C12"] = dict(
     technique="Coq proof that id_of_path inverts path_of for every valid entry under any root at any depth, "
@@ -711,15 +712,16 @@ PROPS["C11"] = dict(
                "equality inside Coq); `an unreadable sub-directory is skipped without hiding its siblings` is "
                "the sysdiff correspondence with Ref.Sys.load_rec_dir_value.",
     level_note="Trusted: as C04; the sort order compared is byte order of the joined ids.",
-    gen=["Dirs", "Flags", "Archive", "Embed", "Watcher", "Private"],
+    gen=["Dirs", "Flags", "Archive", "Embed", "Watcher", "Private", "Fs"],
     model_files=["Ref/Tree.v", "Ref/Archive.v", "Ref/Watcher.v", "Corr/Common.v", "Corr/SrcCheck.v", "Ref/Load.v", "Ref/Sys.v", "Corr/SysCheck.v"],
     model_targets=["Corr/SrcCheck.vo", "Corr/SysCheck.vo"],
-    proof_files=["Proofs/Tree.v", "Tie/Dirs.v", "Tie/Archive.v", "Tie/ArchivePath.v", "Tie/Watcher.v", "Tie/Embed.v", "Props/C11.v"],
+    proof_files=["Proofs/Tree.v", "Tie/Dirs.v", "Tie/Archive.v", "Tie/ArchivePath.v", "Tie/Watcher.v", "Tie/Embed.v", "Tie/Fs.v", "Props/C11.v"],
     proof_targets=["Props/C11.vo"],
     props_module="Props.C11",
     theorems=["C11_dir_ids_are_exactly_the_matching_files", "C11_missing_directory_is_an_error",
               "C11_rec_dir_ids_is_the_union", "C11_code_as_specified", "C11_code_archives_list_each_entry_once",
-              "C11_code_embed_macro_lists_every_entry", "C11_code_archive_paths_parsed_as_modelled"],
+              "C11_code_embed_macro_lists_every_entry", "C11_code_archive_paths_parsed_as_modelled",
+              "C11_code_filesystem_listing"],
     engines=[("srcdiff", []), ("sysdiff", ["--mode", "cold", "--cases", "200"])],
     relevant_classes=["iter-mismatch"],
     rule=SRC_RULE,
